@@ -9,6 +9,9 @@ app_dirs + three installed apps) are built on disk under /tmp/c20/; on each one
 Direct property oracle (independent of the model): the set of files the statement demands is computed from
 the tree with os.walk; every returned .py entry must be the file Python's finder locates for its dot path; a
 sample is really imported through autodiscover().
+Known finding c20-dotted-name: decided per FILE on the input path (has_interior_dot / dotdot_class); a failure is
+attributed to it only for a file of that class and only for what the finding describes (dropped by the ".." filter
+in the COMPONENTS.dirs loop; returned with a dot path that does not import it).  Everything else is a VIOLATION.
 """
 import builtins
 import importlib
@@ -316,10 +319,23 @@ def public_files(d, suffix):
     return out
 
 
+def stem_of(name):
+    """The name without its final suffix, pathlib's notion (PurePath.with_suffix(""), CPython 3.12)."""
+    i = name.rfind(".")
+    return name[:i] if 0 < i < len(name) - 1 else name
+
+
 def has_interior_dot(relparts):
-    """A module part (directory name, or file name without its last extension) contains a dot."""
-    stem = relparts[-1].rsplit(".", 1)[0] if "." in relparts[-1][1:] else relparts[-1]
-    return any("." in p for p in relparts[:-1]) or "." in stem
+    """INPUT class of the recorded finding c20-dotted-name: a directory name on the file's path relative to its import
+    root, or the file name without its final suffix, contains a '.'  (= Discover.Model.dotted_trigger; the two are
+    compared on every generated file by check_world)."""
+    return any("." in p for p in relparts[:-1]) or "." in stem_of(relparts[-1])
+
+
+def dotdot_class(relparts):
+    """Sub-class of the above in which the recorded finding says the file is DROPPED (COMPONENTS.dirs loop only): the
+    components, joined with '.', show two consecutive dots (a component starts or ends with '.', or contains '..')."""
+    return ".." in ".".join(list(relparts[:-1]) + [stem_of(relparts[-1])])
 
 
 def overlapping(src):
@@ -358,9 +374,12 @@ def oracle(chk, case, obs):
                 suf, os.path.relpath(fp, SANDBOX), "a directory" if os.path.isdir(fp) else "not a public file with that suffix"),
                 replay_obj(case, suf))
         for fp in sorted(set(expected) - set(got)):
-            d = max((d for d, _, _ in src if fp.startswith(d + os.sep)), key=len)
-            trig = T_MAGIC if any(ch in d for ch in "*?[") else \
-                T_DOT if has_interior_dot(os.path.relpath(fp, d).split(os.sep)) else T_SEL
+            owners = [(d, root, app) for d, root, app in src if fp.startswith(d + os.sep)]
+            d = max((d for d, _, _ in owners), key=len)
+            # known finding only for: a file of the COMPONENTS.dirs loop (the app loop has no ".." filter) whose path
+            # relative to BASE_DIR is in the consecutive-dots sub-class.  Decided on the input path alone.
+            known_drop = all(not app and dotdot_class(os.path.relpath(fp, root).split(os.sep)) for _, root, app in owners)
+            trig = T_DOT if known_drop else T_MAGIC if any(ch in d for ch in "*?[") else T_SEL
             failed.add(trig)
             chk.fail(trig, "get_component_files(%r) did not return the public file %s" % (suf, os.path.relpath(fp, SANDBOX)),
                      replay_obj(case, suf))
@@ -413,14 +432,9 @@ def shadowed(fp, root):
     return False
 
 
-def autodiscover_oracle(chk, case):
-    """Really import through autodiscover(): the executed files must be exactly the public .py files."""
+def _run_autodiscover(case, map_module=None):
+    """autodiscover() on the current sandbox; returns (error or None, files executed)."""
     from django_components import autodiscover
-    if any(fn.endswith(".pyc") for _, _, fns in os.walk(SANDBOX) for fn in fns):
-        return True      # the generator's .pyc files are empty (only their names matter to the finder): not executable
-    src = sources_of(case)
-    # files that no dotted name can import (x.py next to package x/ ...) are a property of the layout, not of the library
-    expected = sorted(set(f for d, root, _ in src for f in public_files(d, ".py") if not shadowed(f, root)))
     builtins._c20_loaded = []
     before = set(sys.modules)
     already = {getattr(m, "__file__", None) for m in list(sys.modules.values())}       # e.g. the app packages themselves
@@ -428,22 +442,67 @@ def autodiscover_oracle(chk, case):
     err = None
     with configured(case):
         try:
-            autodiscover()
+            autodiscover(map_module)
         except Exception as e:  # noqa
             err = "%s: %s" % (type(e).__name__, e)
-    loaded = sorted(set(builtins._c20_loaded) | (set(expected) & already))
+    loaded = set(builtins._c20_loaded)
     for k in set(sys.modules) - before:
         del sys.modules[k]
-    if err is None and set(expected) <= set(loaded) and all(shadowed(f, r) for f in set(loaded) - set(expected)
-                                                               for d, r, _ in src if f.startswith(d + os.sep)):
+    return err, loaded, already
+
+
+def autodiscover_oracle(chk, case):
+    """Really import through autodiscover(): the executed files must be exactly the public .py files.
+    Files in the dotted-name input class cannot be imported by any dotted name (recorded finding): when the plain run
+    fails and such files exist, the run is repeated with their dot paths neutralised (map_module) and everything
+    OUTSIDE the class must still be imported - so the finding masks nothing but its own files."""
+    from django_components.util.loader import get_component_files
+    if any(fn.endswith(".pyc") for _, _, fns in os.walk(SANDBOX) for fn in fns):
+        return True      # the generator's .pyc files are empty (only their names matter to the finder): not executable
+    src = sources_of(case)
+
+    def in_class(f):
+        return any(has_interior_dot(os.path.relpath(f, root).split(os.sep)) for d, root, _ in src if f.startswith(d + os.sep))
+    # files that no dotted name can import (x.py next to package x/ ...) are a property of the layout, not of the library
+    expected = sorted(set(f for d, root, _ in src for f in public_files(d, ".py") if not shadowed(f, root)))
+    dotted = [f for f in expected if in_class(f)]
+    clean = [f for f in expected if not in_class(f)]
+
+    def judge(err, loaded, already, want):
+        loaded = loaded | (set(want) & already)
+        extra_ok = all(shadowed(f, r) or in_class(f) for f in loaded - set(expected) for d, r, _ in src if f.startswith(d + os.sep))
+        return err is None and set(want) <= loaded and extra_ok, sorted(loaded)
+
+    err, loaded, already = _run_autodiscover(case)
+    ok, shown = judge(err, loaded, already, expected)
+    if ok:
         return True
-    dotted = any(has_interior_dot(os.path.relpath(f, SANDBOX).split(os.sep)) for f in expected)
-    isdir = any(os.path.isdir(os.path.join(cur, d)) and d.endswith(".py") for s, _, _ in src for cur, dns, _ in os.walk(s) for d in dns)
-    trig = T_DIR if isdir else T_DOT if dotted else T_IMP
-    chk.fail(trig, "autodiscover() %s; executed %s, public .py files are %s" % (
-        "raised " + err if err else "returned", [os.path.relpath(f, SANDBOX) for f in loaded],
-        [os.path.relpath(f, SANDBOX) for f in expected]), replay_obj(case, ".py", kind="autodiscover"))
-    return False
+
+    def report(trig, err, shown, want, note=""):
+        chk.fail(trig, "autodiscover() %s%s; executed %s, public .py files %sare %s" % (
+            "raised " + err if err else "returned", note, [os.path.relpath(f, SANDBOX) for f in shown],
+            "outside the dotted-name class " if note else "", [os.path.relpath(f, SANDBOX) for f in want]),
+            replay_obj(case, ".py", kind="autodiscover"))
+    # second run: neutralise (map_module) the dot paths of files that no dotted name can import - the dotted-name class
+    # (decided on the file path) and files shadowed by a sibling (the layout, not the library) - and demand the rest
+    with configured(case):
+        ents = [(e.dot_path, str(e.filepath)) for e in get_component_files(".py")]
+
+    def unimportable(fp):
+        return in_class(fp) or any(shadowed(fp, root) for d, root, _ in src if fp.startswith(d + os.sep))
+    keep = {dot for dot, fp in ents if not unimportable(fp)}
+    neutral = {dot for dot, fp in ents if unimportable(fp)} - keep
+    if dotted:
+        # the class's files exist and were not all imported: the recorded finding, reproduced on an input of its class
+        report(T_DOT, err, shown, expected)
+    if neutral:
+        err, loaded, already = _run_autodiscover(case, lambda name: "builtins" if name in neutral else name)
+    ok, shown = judge(err, loaded, already, clean)      # (nothing to neutralise: the first run, judged on the rest)
+    if not ok or not (dotted or neutral):
+        report(T_IMP, err, shown, clean if (dotted or neutral) else expected,
+               note=" (dot paths of dotted-name / shadowed files neutralised)" if neutral else "")
+        return False
+    return not dotted
 
 
 def replay_obj(case, suffix, kind="files"):
@@ -453,17 +512,21 @@ def replay_obj(case, suffix, kind="files"):
 # ---------------------------------------------------------------------------------------------
 # generators
 # ---------------------------------------------------------------------------------------------
-PLAIN_D = ["a", "b", "sub", "ui", "pkg"]
+PLAIN_D = ["a", "b", "sub", "ui", "pkg", "c[1]"]
 ODD_D = ["_p", "__pycache__", ".h", ".git", "_"]
-DOT_D = ["v1.0", "x.py", "a.", "a..b", "m.js"]
+DOT_D = ["v1.0", "x.py", "a.", "a..b", "m.js", "_v.1"]
 PLAIN_F = ["a.py", "b.py", "m.py", "sub.py", "__init__.py", "c.js", "t.txt", "noext", "a.pyc"]
-ODD_F = ["_p.py", "__init__.js", "__main__.py", ".h.py", ".py", "_.py", "__init__.pyc", "__init__", "_x.js", ".hidden"]
-DOT_F = ["my.comp.py", "a..py", "ab..cd.py", "a.__init__.py", "a.b.js", "x.min.js", "z.", "__init__.x.py"]
+ODD_F = ["_p.py", "__init__.js", "__main__.py", ".h.py", ".py", "_.py", "__init__.pyc", "__init__", "_x.js", ".hidden", "[x].py", "q?.py"]
+DOT_F = ["my.comp.py", "a..py", "ab..cd.py", "a.__init__.py", "a.b.js", "x.min.js", "z.", "__init__.x.py", "_my.comp.py"]
 
 # candidate component directories (below the sandbox)
 CAND = ["proj/components", "proj/ui/comps", "proj", "proj/papp/components", "proj/components/sub", "other/comps",
         "proj/missing", "site/c20app/components", "site/c20pkg/inner/components", "site/c20app/comps",
         "site/c20pkg/inner/ui/comps", "proj/papp/comps"]
+# configured directories whose path contains glob metacharacters (must be taken literally: fix dfdce86); the sibling
+# names below make a live pattern observable (c[1] would match c1, x*y would match xzy, q? would match qa)
+MAGIC = ["proj/c[1]", "proj/x*y/comps", "proj/q?"]
+MAGIC_SIBLINGS = {"proj/c[1]": "proj/c1", "proj/x*y/comps": "proj/xzy/comps", "proj/q?": "proj/qa"}
 
 
 def gen_tree(rng, depth, dots, odd):
@@ -500,6 +563,11 @@ def gen_case(rng, dots=0.0, odd=0.25):
         if cand in ("proj", "proj/missing"):
             continue
         put(tree, cand, gen_tree(rng, rng.choice([1, 2, 2, 3]), dots, odd))
+    magic = rng.random() < 0.12
+    if magic:
+        for m in rng.sample(MAGIC, rng.randint(1, 2)):
+            put(tree, m, gen_tree(rng, rng.choice([1, 2]), dots, odd))
+            put(tree, MAGIC_SIBLINGS[m], gen_tree(rng, 1, dots, odd))
     mode = rng.random()
     forms_ok = ["str", "str", "path", "path", "slash", "dotseg", "tuple", "tuplepath", "list", "tuple3"]
 
@@ -507,6 +575,8 @@ def gen_case(rng, dots=0.0, odd=0.25):
         out = []
         for cand in rng.sample(CAND[:7] + CAND[:2], k):
             out.append({"form": rng.choice(forms_ok), "p": cand})
+        if magic:
+            out.insert(rng.randrange(len(out) + 1), {"form": rng.choice(forms_ok), "p": rng.choice(MAGIC)})
         if rng.random() < 0.15:
             out.insert(rng.randrange(len(out) + 1), {"form": rng.choice(["bad", "badtuple"]), "p": None})
         if rng.random() < 0.05:
@@ -532,7 +602,7 @@ def gen_case(rng, dots=0.0, odd=0.25):
 def small_trees():
     """Exhaustive small layer: one component dir, every pair of entries from a pool of interesting names."""
     names_f = ["a.py", "_p.py", "__init__.py", ".h.py", "c.js", "noext"]
-    names_d = ["sub", "_p", ".h"]
+    names_d = ["sub", "_p", ".h", "x.py"]
     inner = [{}, {"m.py": None}, {"__init__.py": None, "_q.py": None}, {"deep": {"d.py": None, ".x.py": None}}]
     for i, f1 in enumerate(names_f):
         for f2 in names_f[i:]:
@@ -566,7 +636,30 @@ def case_term(case, obs):
         ["(%s, %s)" % (cstr(dot), cpath(rel_parts(fp))) for dot, fp in l]))) for suf, r in obs["files"]])
     dq = clist(["(%s, %s)" % (cbool(ia), res_term(r, lambda l: clist([cpath(rel_parts(p)) for p in l]))) for ia, r in obs["dirs"]])
     iq = clist(["(%s, %s, %s)" % (cpath(root.split("/")), cstr(name), copt(o, cpath)) for root, name, o in obs["finds"]])
-    return "(%s, %s, %s, %s)" % (world_term(case, obs["tree"]), fq, dq, iq)
+    tq = clist(["(%s, %s)" % (cpath(rel), cbool(b)) for rel, b in obs["triggers"]])
+    return "(%s, %s, %s, %s, %s)" % (world_term(case, obs["tree"]), fq, dq, iq, tq)
+
+
+TRIG_NAMES = DOT_F + ["a.py", "noext", "z.", ".py", ".h.py", "a.b", "..", "a.b.c", "__init__.py", "x.", ".x", "a..", "..a"]
+
+
+def trigger_queries(rng, case):
+    """(relative path, has_interior_dot) for files of the sandbox's source directories (relative to their import root)
+    and a few synthetic names: ties the harness's known-finding trigger to Discover.Model.dotted_trigger."""
+    qs = []
+    for d, root, _ in (sources_of(case) or []):
+        if not os.path.isdir(d):
+            continue
+        for cur, dns, fns in os.walk(d):
+            for fn in sorted(fns):
+                if len(qs) < 10:
+                    rel = os.path.relpath(os.path.join(cur, fn), root).split(os.sep)
+                    if ".." not in rel[:1]:
+                        qs.append((rel, has_interior_dot(rel)))
+    for _ in range(2):
+        rel = [rng.choice(PLAIN_D + DOT_D) for _ in range(rng.randint(0, 2))] + [rng.choice(TRIG_NAMES)]
+        qs.append((rel, has_interior_dot(rel)))
+    return qs
 
 
 def import_queries(rng, case, obs, extra=3):
@@ -589,12 +682,6 @@ def import_queries(rng, case, obs, extra=3):
     return qs
 
 
-def in_model_scope(case):
-    """The model covers configured directory paths without glob metacharacters."""
-    ents = (case["dirs"] or []) + case["static"]
-    return not any(ch in (e.get("p") or "") for e in ents for ch in "*?[")
-
-
 def run_case(chk, case, suffixes, kind, terms, cases, do_auto=False):
     try:
         obs = observe(case, suffixes)
@@ -611,10 +698,10 @@ def run_case(chk, case, suffixes, kind, terms, cases, do_auto=False):
         sample = {"config": {k: case[k] for k in ("base", "dirs", "static", "app_dirs")}, "tree": obs["tree"],
                   "get_component_files": [[suf, r[0], sorted(d for d, _ in r[1]) if r[0] == "ok" else r[1]] for suf, r in obs["files"]]}
     chk.count(json.dumps(case, sort_keys=True), nt, sample=sample, kind=kind)
-    if in_model_scope(case):
-        obs["finds"] = import_queries(chk.rng, case, obs)
-        terms.append(case_term(case, obs))
-        cases.append(case)
+    obs["finds"] = import_queries(chk.rng, case, obs)
+    obs["triggers"] = trigger_queries(chk.rng, case)
+    terms.append(case_term(case, obs))
+    cases.append(case)
     return failed
 
 
@@ -661,22 +748,30 @@ def run(tier, seed):
     finally:
         cleanup()
     chk.assumptions = [
-        "glob.iglob / os.scandir / pathlib (CPython 3.12) are modelled: `**` and `*` skip dot-names, match files and directories",
-        "configured directory paths contain no glob metacharacters (otherwise: trigger %s, direct oracle only)" % T_MAGIC,
-        "no symlinks; names are non-empty, without '/' and NUL; suffix has no glob metacharacters",
+        "glob.iglob / os.scandir / pathlib (CPython 3.12) are modelled: `**` and `*` skip dot-names, match files and directories; "
+        "glob.escape makes the configured directory literal; Path.is_file() = look the path up again",
+        "no symlinks; names are non-empty, without '/' and NUL; the suffix has no glob metacharacters",
         "settings.BASE_DIR is set; the project root / app package parents are on sys.path (dirs: BASE_DIR = import root)",
-        "import lookup = importlib.machinery.PathFinder on one root, source files only (.py); nothing cached in sys.modules",
+        "import lookup = importlib.machinery.PathFinder on one root (.py, sourceless .pyc); nothing cached in sys.modules; a file shadowed by a "
+        "sibling of the same name (x.py next to package x/, x/ without __init__ next to x.py) has no importing name: not judged",
         "each-once and exactness are judged for configurations whose source directories are distinct and not nested",
+        "recorded finding %s: input class = some component of the file's path relative to its import root contains a '.' besides the final "
+        "suffix (has_interior_dot = Discover.Model.dotted_trigger, compared on every generated file); inside the class a file may be dropped "
+        "(COMPONENTS.dirs loop, consecutive dots only) or returned with a dot path that does not import it; everything else is judged" % T_DOT,
     ]
+    chk.extra["known_finding_class"] = {"trigger": T_DOT, "oracle_failures_in_class": sum(1 for t, _, _ in chk.failures if t == T_DOT),
+                                        "oracle_failures_outside_class": sum(1 for t, _, _ in chk.failures if t != T_DOT)}
     return chk.finish(
-        rule="sandboxes = directory tree x BASE_DIR x COMPONENTS.dirs/STATICFILES_DIRS (str, Path, tuple, list, duplicates, bad, relative) x app_dirs "
-             "x 3 installed apps (top-level, nested package, inside the project); exhaustive small layer (pairs of 6 file names x 3 dir names x 4 "
-             "sub-trees, suffixes .py and None) + %d seeded random sandboxes (20%% with dotted names), 2 suffixes each + get_component_dirs(True/False) "
-             "+ import lookups of every returned dot path; every 10th sandbox is really imported with autodiscover(). Non-trivial = some file "
-             "selected and some same-suffix file rejected by the underscore/hidden rule. Distinct = distinct (tree, configuration)." % n,
-        explanation="theorems of Props/C20.v re-checked by coqc; the model (glob walk, underscore filter, module path, '..' filter, dirs "
-                    "de-duplication, app loop, import finder) is evaluated by vm_compute inside Coq on every sandbox and compared with "
-                    "loader.py / importlib; an os.walk re-statement of the property and real imports act as direct oracle.",
+        rule="sandboxes = directory tree x BASE_DIR x COMPONENTS.dirs/STATICFILES_DIRS (str, Path, tuple, list, 3-tuple, duplicates, bad, relative, "
+             "directories with glob metacharacters next to the names a live pattern would match) x app_dirs x 3 installed apps (top-level, nested "
+             "package, inside the project); exhaustive small layer (pairs of 6 file names x 4 dir names incl. a directory x.py x 4 sub-trees, "
+             "suffixes .py and None) + %d seeded random sandboxes (20%% with dotted names), 2 suffixes each + get_component_dirs(True/False) "
+             "+ import lookups of every returned dot path + the known-finding trigger on the tree's files; every 10th sandbox is really imported "
+             "with autodiscover(). Non-trivial = some file selected and some same-suffix file rejected by the underscore/hidden rule. "
+             "Distinct = distinct (tree, configuration)." % n,
+        explanation="theorems of Props/C20.v re-checked by coqc; the model (glob walk, is_file, underscore filter, module path, '..' filter, dirs "
+                    "de-duplication, app loop, import finder, known-finding trigger) is evaluated by vm_compute inside Coq on every sandbox and "
+                    "compared with loader.py / importlib; an os.walk re-statement of the property and real imports act as direct oracle.",
         extra_trusted=["modelled, not verified: glob/fnmatch/pathlib/os of CPython 3.12, importlib's FileFinder precedence (package > module > namespace)",
                        "the file system (tmpfs/ext4 under /tmp/c20)"])
 
@@ -705,8 +800,9 @@ def replay(path):
         failed = oracle(chk, case, obs)
         if c.get("kind") == "autodiscover":
             autodiscover_oracle(chk, case)
+        known = {e.get("trigger") for e in chk.known}
         for t, what, _ in chk.failures:
-            print("ORACLE-FAIL [%s] %s" % (t, what))
-        return 1 if chk.failures else 0
+            print("ORACLE-FAIL [%s]%s %s" % (t, " (recorded known finding)" if t in known else "", what))
+        return 1 if any(t not in known for t, _, _ in chk.failures) else 0
     finally:
         cleanup()
